@@ -96,6 +96,8 @@ pub struct HistCfg {
     pub reserve_batch: usize,
     /// long mode: many tiny pushes
     pub long: bool,
+    /// set by run_history: out-of-contract pushes are tried (only without a twin universe)
+    pub probe_refusals: bool,
 }
 
 impl HistCfg {
@@ -114,6 +116,7 @@ impl HistCfg {
             reuse: 64,
             reserve_batch: 4,
             long: false,
+            probe_refusals: false,
         }
     }
 }
@@ -251,12 +254,45 @@ impl<S: Spec> Universe<S> {
         match op {
             Op::Push { slot, v, form } => {
                 let si = *slot as usize % ns;
+                if !S::admissible(&self.slots[si].m, v) {
+                    self.ev.hit("push-skipped-offsets-would-leave-usize");
+                    obs.skipped = true;
+                    return Ok(obs);
+                }
                 if let Some(tr) = &self.slots[si].trained {
                     let refs: Vec<&S::V> = tr.iter().collect();
-                    if !S::accepts(&refs, v) {
+                    if !S::accepts(&refs, v) && !self.cfg.probe_refusals {
+                        // with a twin universe the outcome of an out-of-contract push (refusal
+                        // or acceptance) would desynchronise the two: skip it
                         self.ev.hit("push-skipped-outside-acceptance");
                         obs.skipped = true;
                         return Ok(obs);
+                    }
+                    if !S::accepts(&refs, v) {
+                        // outside the sufficient acceptance condition: the region may refuse
+                        // (panic at push, after which it is dropped and replaced by a fresh one),
+                        // but if it returns an index that index must read the pushed value
+                        self.ev.hit("push-outside-acceptance-probed");
+                        let mut forms = Forms::new(form);
+                        let r = &mut self.slots[si].r;
+                        match guard(|| S::push_via(&mut RegionSink(r), v, &mut forms)) {
+                            Err(_) => {
+                                self.ev.hit("refusal-at-push");
+                                self.slots[si] = Slot::fresh();
+                                obs.skipped = true;
+                                return Ok(obs);
+                            }
+                            Ok(idx) => {
+                                self.ev.hit("accepted-outside-sufficient-condition");
+                                let _ = S::model_push(&mut self.slots[si].m, v);
+                                obs.idx = Some(idx_key_of::<S>(&idx));
+                                self.slots[si].items.push((idx, v.clone()));
+                                self.slots[si].ever.push(v.clone());
+                                self.check_all()?;
+                                obs.used = self.used(si);
+                                return Ok(obs);
+                            }
+                        }
                     }
                 }
                 let heap_before = if S::HEAP { Some(heap_pairs(&self.slots[si].r)) } else { None };
@@ -666,10 +702,14 @@ pub fn run_history<S: Spec>(
     cfg: &HistCfg,
     stats: &mut RunStats,
 ) -> Result<(), String> {
+    let mut rcfg = cfg.clone();
+    rcfg.probe_refusals = cfg.twin == Twin::None;
+    let cfg = &rcfg;
     let mut real = Universe::<S>::new(caps, cfg, "");
     let mut twin = if cfg.twin != Twin::None {
         let mut tcfg = cfg.clone();
         tcfg.twin = Twin::None;
+        tcfg.probe_refusals = false;
         Some(Universe::<S>::new(caps, &tcfg, "twin"))
     } else {
         None
